@@ -87,6 +87,9 @@ def enumerate_sites(F, roots):
                 elif c in INDEXERS:
                     detail, why = describe_index(fl, b, bi, t)
                     out.append((b, bi, 'index', detail, why))
+                elif c in ('core::slice::<impl [T]>::split_at', 'core::slice::<impl [T]>::split_at_mut'):
+                    # `v.split_at(mid)` is the range index `v[..mid]` / `v[mid..]` under another name: the same kind of site
+                    out.append((b, bi, 'index', 'split_at of %s' % root_name(fl, t['args'][0]), None))
                 elif c in PANICKY_STD:
                     out.append((b, bi, 'std-panics', '%s (%s) on %s' % (c.split('::')[-1], PANICKY_STD[c], root_name(fl, t['args'][0])), None))
     return out, graph
